@@ -321,16 +321,28 @@ def _e2e_case(res, case):
 
     seed = rng.randrange(30)
     opts = dict(want_cn=True, strands=rng.choice([(1, -1), (-1, 1)]), hostile=0.5)
+    tandem = case["k"] % 3 == 2
+    if tandem:
+        # a catalogued deletion of one unit inside a tandem tract (several equivalent placements; aligners put it
+        # leftmost on whichever strand they see), genotyped with the realigner off
+        opts["tandem_del"] = True
+        opts["want_cn"] = False  # (no structural alleles: a partial deletion over the site would tie with the call)
     dba = _sim.gen_db(seed, "hg19", **opts)
     dbb = _sim.gen_db(seed, "hg38", **opts)
     copies = _sim.random_genotype(dba, rng)
+    if tandem and dba.spec["truth"].get("tandem_variant"):
+        tv = dba.spec["truth"]["tandem_variant"]
+        owners = [an for an, a in dba.gene.alleles.items() if a.cn_config == "1" and any(
+            dba.gene.get_refseq(m) == f"{tv[0]}{tv[1]}" for m in a.func_muts)]
+        if owners:
+            copies = [dba.first_minor(owners[0]), dba.first_minor(owners[0]) if rng.random() < 0.4 else dba.reference_copy()]
     if any(c[0] not in dbb.gene.alleles for c in copies):
         res.count("skipped_catalogues_differ")
         return None
     rl, depth = rng.choice([60, 100, 150]), 20
     phase = rng.random() < 0.5
     # the realigner switched off: catalogued indels are matched through their equivalent placements instead
-    fast = rng.random() < 0.3
+    fast = rng.random() < 0.3 or tandem
     outs, subs = [], []
     from . import c01
 
